@@ -68,6 +68,7 @@ type c06Case struct {
 	path string
 	opt  int // 0 -r, 1 -rl, 2 -rc, 3 -rlc
 	kind int // 0 directory module, 1 MapFS module, 2 os.Root.FS() module
+	warm bool // the same Server has served its other modules (complete downloads) before this request
 }
 
 var c06Opts = []string{"-r", "-rl", "-rc", "-rlc"}
@@ -221,6 +222,13 @@ func c06Run(c c06Case) core.Result {
 		return res
 	}
 	lo := rp.ListOpts{Links: c.opt&1 != 0, Checksum: c.opt&2 != 0}
+	if c.warm {
+		// whatever serving the neighbours leaves behind in the Server must not show up in this answer
+		res.Case += " after complete downloads of the neighbouring modules from the same Server"
+		for _, m := range []string{"m", "module", "m"} {
+			c06Session(srv, m, []string{"--server", "--sender", c06Opts[c.opt], ".", m + "/"}, lo)
+		}
+	}
 	raw, list, responses, errText, serr := c06Session(srv, "mod", []string{"--server", "--sender", c06Opts[c.opt], ".", c.path}, lo)
 	cnt(&res, "transitions", 1)
 	cnt(&res, "traces_validated_against_impl", 1)
@@ -335,7 +343,10 @@ func c06BuildPaths(tier string) core.Source {
 				if tier != "thorough" && (pi+opt+kind)%2 != 0 && strings.Count(p, "/") >= 3 {
 					continue // quick: depth-3 paths on half of the (option, module kind) pairs
 				}
-				cases = append(cases, c06Case{p, opt, kind})
+				cases = append(cases, c06Case{p, opt, kind, false})
+				if strings.Count(p, "/") <= 1 || tier == "thorough" {
+					cases = append(cases, c06Case{p, opt, kind, true})
+				}
 			}
 		}
 	}
@@ -346,7 +357,7 @@ func init() {
 	core.Register(&core.Prop{
 		ID:    "C06",
 		Level: "model_checking",
-		Rule: "every request path of the grammar [mod|m|module|\"\"](\"/\" comp){0..3} (thorough 0..4) with comp in {\"\", ., .., inside-dir, inside-file, link-in, link-out-dir, link-out-file, link-abs, mod} plus hand-picked absolute/odd forms, x options {-r,-rl,-rc,-rlc} x module kinds {directory, MapFS, os.Root.FS()} with three modules whose names are prefixes of each other; a scripted receiving client speaks the daemon protocol, decodes the list and then requests every index (any entry type) with an empty and with a non-empty sum set. " +
+		Rule: "every request path of the grammar [mod|m|module|\"\"](\"/\" comp){0..3} (thorough 0..4) with comp in {\"\", ., .., inside-dir, inside-file, link-in, link-out-dir, link-out-file, link-abs, mod} plus hand-picked absolute/odd forms, x options {-r,-rl,-rc,-rlc} x module kinds {directory, MapFS, os.Root.FS()} with three modules whose names are prefixes of each other (paths of depth <=1 also after the same Server has served complete downloads of the two neighbouring modules); a scripted receiving client speaks the daemon protocol, decodes the list and then requests every index (any entry type) with an empty and with a non-empty sum set. " +
 			"oracle: the raw server byte stream contains no outside content, name or modification time (outside objects carry unique ones); every decoded entry matches an inside object (type, size, mtime, link target text, -c checksum); every served byte sequence is an inside file's content. states = entries and responses judged, transitions = sessions",
 		Assum: []string{"whatever an fs.FS module exposes is the module", "outside objects are recognisable by unique names, contents and mtimes"},
 		Parts: func(tier string) []core.Part {
